@@ -19,6 +19,12 @@ Theorem C09_modes : forall m ws,
 Proof. exact modes_ok. Qed.
 Print Assumptions C09_modes.
 
+(* both loops start their distances from a float literal: the sums are floating-point additions whatever numeric type
+   the caller's weights have (exact below 2^53; below 2^24 for np.float32 weights), never fixed-width integer sums *)
+Theorem C09_accumulator_float : sp_init_dist_float = true /\ set_init_dist_float = true /\ acc_float = true.
+Proof. exact accumulator_float. Qed.
+Print Assumptions C09_accumulator_float.
+
 (* the relaxation test of both loops is the strict comparison *)
 Theorem C09_relaxation_strict : strict_gt relax_sp /\ strict_gt relax_set.
 Proof. exact relax_strict. Qed.
